@@ -15,13 +15,18 @@
   `commuteGuard` (`commute_succeeds_replace`: one step inside a node the other does not touch; false
   without a guard, `commute_needs_guard`), and likewise for a replace step outside `[from, to]` of a
   replace-around step (`commute_succeeds_around`) and for two replace-around steps one after the other
-  (`commute_succeeds_around_around`), and for a node-mark / attr step before a replace-around step
-  (`commute_succeeds_around_nodeStep_before_partial`).  A step strictly inside the kept gap: guard `gapGuard` found and tied to the
-  real code, theorem `commute_succeeds_around_gap` stated, not proved (last section: what is missing).
+  (`commute_succeeds_around_around`), and for a node-mark / attr step before or after a
+  replace-around step (`commute_succeeds_around_nodeStep_partial`) and for mark steps outside `[from, to]`
+  (`commute_succeeds_around_removeMark_partial`, `commute_succeeds_around_addMark_partial`: `commuteGuard`, validity,
+  `TextLoop`).  A step strictly inside the kept gap (overlapping in the property's sense; last section): guard
+  `gapGuard` tied to the real code; under it, for a replace-around step with a closed slice, both orders apply and
+  agree for a replace step (`commute_succeeds_around_gap`), another replace-around step
+  (`commute_succeeds_around_around_gap`), a mark step (`commute_succeeds_around_mark_gap_partial`) and a node-mark / attr
+  step (`commute_succeeds_around_nodeStep_gap_partial`); the guard cannot be dropped (example `gapGuard_needs`).
   Helper lemmas: Proofs/Commute.lean, Proofs/CommuteMarkup.lean, Proofs/CommuteSuccess.lean,
   Proofs/CommuteSuccessR.lean, Proofs/Lvl.lean; for replace-around steps Proofs/CommuteAround.lean,
   Proofs/CommuteAroundDocs.lean, Proofs/CommuteAroundMarkup.lean, Proofs/CommuteAroundSuccess.lean,
-  Proofs/CommuteAroundAgain.lean, Proofs/ContentBetweenToks.lean.
+  Proofs/CommuteAroundAgain.lean, Proofs/GapInner.lean, Proofs/ContentBetweenToks.lean.
 -/
 import PM.Step
 import Proofs.StepToks
@@ -1947,6 +1952,86 @@ theorem commute_succeeds_around_gap (S : Schema) (htr : CompatTrans S) (d da db 
       (apply_replaceAround_struct S _ _ f t gf gt sl ins hb)
   exact around_applies_of_parts S _ _ f _ gf _ sl ins st ⟨ctxg kN', 0, 0⟩ I' hslice' rfl rfl hI' hfr hst
 
+
+/-- **two replace-around steps, the second one strictly inside the kept gap of the first one and inside an element node
+    of the gap content** (`gapGuard` on `(from', to', slice')`; first step's slice closed): the second step is the plain
+    replace by its filled slice, `commute_succeeds_around_gap` applies to it, and the rebased replace is the second
+    step again because its whole range moved unchanged (`around_again_window`) -/
+theorem commute_succeeds_around_around_gap (S : Schema) (htr : CompatTrans S) (d da db : Node)
+    (f t gf gt ins f' t' gf' gt' ins' : Nat) (sl sl' : Slice) (st st' : Bool)
+    (hv : C01.Valid S d) (hpvA : C01.PayloadValid S d (.replaceAround f t gf gt sl ins st))
+    (hpvB : C01.PayloadValid S d (.replaceAround f' t' gf' gt' sl' ins' st'))
+    (hn : fnorm d.kids = true) (hsn : fnorm sl.content = true) (hsn' : fnorm sl'.content = true)
+    (hs : AroundShape f t gf gt sl ins) (hs' : AroundShape f' t' gf' gt' sl' ins')
+    (hcl : sl.openStart = 0 ∧ sl.openEnd = 0) (h : gf < f') (h' : t' < gt)
+    (ha : S.apply (.replaceAround f t gf gt sl ins st) d = .ok da)
+    (hb : S.apply (.replaceAround f' t' gf' gt' sl' ins' st') d = .ok db)
+    (hdaal : alignedAt da.kids f = true ∧ alignedAt da.kids (f + sl.toks.length + (gt - gf)) = true)
+    (hg : gapGuard d.kids gf gt f' t' sl' = true) :
+    ∃ A' B' dab,
+      (Step.replaceAround f t gf gt sl ins st).map
+        (Step.replaceAround f' t' gf' gt' sl' ins' st').getMap = some A' ∧
+      (Step.replaceAround f' t' gf' gt' sl' ins' st').map
+        (Step.replaceAround f t gf gt sl ins st).getMap = some B' ∧
+      S.apply B' da = .ok dab ∧ S.apply A' db = .ok dab := by
+  obtain ⟨gapB, IB, hgapB, ho1, ho2, hinstB, hb2, hioB, hinB, hiszB, hlB⟩ :=
+    around_as_replace S d db f' t' gf' gt' ins' sl' st' hn hsn' hs' hb
+  have hgo := hs.2.2
+  have hgo' := hs'.2.2
+  have hpayB : openValid S IB.openStart IB.openEnd IB.content = true := hpvB gapB IB hgapB hinstB
+  have hg' : gapGuard d.kids gf gt f' t' IB = true := by
+    unfold gapGuard at hg ⊢; rw [hioB]; exact hg
+  obtain ⟨A', R', dab, eA, eR, hA'db, hR'da⟩ := commute_succeeds_around_gap S htr d db da f t gf gt ins f' t' sl IB st
+    false hv hpvA hpayB hn hinB hsn hs hcl h h' hb2 ha hdaal hg'
+  obtain ⟨eA2, eR2⟩ := (rebase_around_separated f t gf gt ins f' t' sl IB st false hgo (by omega)).2.1 h h'
+  obtain ⟨eA3, eB3⟩ := (rebase_around_around f t gf gt ins f' t' gf' gt' ins' sl sl' st st' hgo hgo').2 h h'
+  rw [eA2] at eA; rw [eR2] at eR
+  simp only [Option.some.injEq] at eA eR
+  subst eA eR
+  have eqT : ∀ x : Nat, ((x : Int) + (IB.size - ((t' : Int) - f'))).toNat =
+      ((x : Int) + (((ins' : Int) - ((gf' : Int) - f')) + (sl'.size - ins' - ((t' : Int) - gt')))).toNat := by
+    intro x; congr 1; omega
+  rw [eqT t, eqT gt] at hA'db
+  refine ⟨_, _, dab, eA3, eB3, ?_, hA'db⟩
+  -- the second step on `da`: its range moved unchanged
+  obtain ⟨hdaL, hl, hXl, _⟩ := apply_around_aroundL S d da f t gf gt sl ins st hs ha
+  have hna : fnorm da.kids = true := by
+    obtain ⟨gap, I, hgap, _, _, hinst, ha2, hio, hin, hisz, _⟩ :=
+      around_as_replace S d da f t gf gt ins sl st hn hsn hs ha
+    exact apply_replace_norm S d da f t I false hn hin ha2
+  have hfr := apply_replace_fromReplace S da dab _ _ IB false hR'da
+  have np' : ∀ x : Nat, f' ≤ x → ((x : Int) + ((ins : Int) - ((gf : Int) - f))).toNat = f + ins + (f' - gf) + (x - f') := by
+    intro x hx; omega
+  rw [np' f' (Nat.le_refl _), np' t' (by omega), Nat.sub_self, Nat.add_zero] at hfr
+  rw [np' f' (Nat.le_refl _), np' t' (by omega), np' gf' (by omega), np' gt' (by omega), Nat.sub_self, Nat.add_zero]
+  have hlenda : (ftoks da.kids).length = f + ins + (gt - gf) + (sl.toks.drop ins).length + ((ftoks d.kids).length - t) := by
+    rw [hdaL, aroundL_length _ _ _ _ _ _ _ hgo hl, hXl]
+  have hw := aroundL_window_gap (ftoks d.kids) (sl.toks.take ins) (sl.toks.drop ins) f gf gt t (f' - gf) (t' - f')
+    hgo hl (by omega)
+  rw [hXl, ← hdaL, show gf + (f' - gf) = f' by omega] at hw
+  have htokda : ∀ x, gf < x → x < gt → (ftoks da.kids)[f + ins + (x - gf) - 1]? = (ftoks d.kids)[x - 1]? ∧
+      (ftoks da.kids)[f + ins + (x - gf)]? = (ftoks d.kids)[x]? := by
+    intro x hp1 hp2
+    have g1 := aroundL_getElem?_gap (ftoks d.kids) (sl.toks.take ins) (sl.toks.drop ins) f gf gt t (x - gf - 1) hgo hl (by omega)
+    have g2 := aroundL_getElem?_gap (ftoks d.kids) (sl.toks.take ins) (sl.toks.drop ins) f gf gt t (x - gf) hgo hl (by omega)
+    rw [hXl] at g1 g2
+    rw [hdaL]
+    constructor
+    · rw [show f + ins + (x - gf) - 1 = f + ins + (x - gf - 1) by omega, g1]; congr 1; omega
+    · rw [g2]; congr 1; omega
+  have := around_again_window S d da db dab f' t' gf' gt' ins' (f + ins + (f' - gf)) sl' st' gapB IB hn hna hgo' hlB
+    (by rw [hlenda]; omega) hw
+    (fun hlt => by
+      obtain ⟨al1, al2⟩ := sliceKids_aligned d.kids gf' gt' gapB hlt hgapB
+      constructor
+      · rw [show f + ins + (f' - gf) + (gf' - f') = f + ins + (gf' - gf) by omega]
+        exact alignedAt_shift da.kids d.kids _ gf' hna hn (by omega) (by omega) (htokda gf' (by omega) (by omega)).1
+          (htokda gf' (by omega) (by omega)).2 al1
+      · rw [show f + ins + (f' - gf) + (gt' - f') = f + ins + (gt' - gf) by omega]
+        exact alignedAt_shift da.kids d.kids _ gt' hna hn (by omega) (by omega) (htokda gt' (by omega) (by omega)).1
+          (htokda gt' (by omega) (by omega)).2 al2)
+    hb hgapB ho1 ho2 hinstB hfr
+  exact this
 
 /-- **a mark step strictly inside the kept gap, inside an element node of the gap content** (`gapGuard` with the open
     depths of the slice the mark step re-marks; e.g. marking text of a paragraph that is being wrapped or lifted):
